@@ -59,6 +59,8 @@ for _h in ("h_max", "h_add"):
         for _bt, _btn in (("Debug", "d"), ("RelWithDebInfo", "r")):
             VARIANTS["cfg-%s-%s-%s" % (_h, _ci.lower(), _btn)] = (
                 _bt, "", ["-DBUILD_EXECUTOR=ON", "-DHEURISTIC_TYPE=" + _h, "-DCHECK_INCONSISTENCIES=" + _ci], True)
+# libFuzzer build (clang): every library instrumented for coverage, ASan and UBSan
+VARIANTS["fuzz"] = ("Debug", "-O1 -fsanitize=fuzzer-no-link,address,undefined -fno-sanitize=vptr,object-size -fno-sanitize-recover=all -fno-omit-frame-pointer", ["-DCMAKE_CXX_COMPILER=clang++-14", "-DBUILD_TESTING=OFF"], True)
 VARIANTS["cfg-dl"] = ("Debug", "", ["-DBUILD_EXECUTOR=ON", "-DTEMPORAL_NETWORK_TYPE=DL"], True)
 VARIANTS["cfg-h2"] = ("Debug", "", ["-DBUILD_EXECUTOR=ON", "-DHEURISTIC_TYPE=h2_add"], True)
 
@@ -123,7 +125,7 @@ INC_DIRS = ["smt", "smt/arith", "smt/arith/lra", "smt/arith/dl", "smt/ov", "smt/
 BIN_INC = ["smt", "smt/json", "smt/concurrent", "riddle", "core", "solver", "executor"]
 
 
-def driver(variant, name, libs=("smt", "json"), extra_flags=""):
+def driver(variant, name, libs=("smt", "json"), extra_flags="", compiler="g++"):
     """Compile /verif/drivers/<name>.cpp against `variant`; returns the executable path."""
     bdir = ensure(variant)
     btype, flags, opts, hooks = VARIANTS[variant]
@@ -142,7 +144,7 @@ def driver(variant, name, libs=("smt", "json"), extra_flags=""):
         opt = "-O2 -g" if btype != "Debug" else "-O1 -g"
         if btype != "Debug":
             opt += " -DNDEBUG"
-        cmd = ["ccache", "g++", "-std=gnu++17"] + opt.split() + ["-Wno-error"]
+        cmd = ["ccache", compiler, "-std=gnu++17"] + opt.split() + ["-Wno-error"]
         if hooks:
             cmd.append("-D" + GUARD)
         if "PARALLELIZE=ON" in " ".join(opts):
